@@ -59,10 +59,13 @@ func canonModelExprWS(m *Model) string {
 // dslCorr queues the parser correspondence op for text and returns the real outcome.
 func dslCorr(c *Ctx, stream, text string) (out string) {
 	cleaned := harnessClean(text)
-	tree, _, errs := parseTree(cleaned)
+	r := parseFull(cleaned)
+	tree, errs := r.Tree, r.Errs
 	out, _, _ = realParse(text)
 	c.D.Add("corr:parser/"+stream, L("dsl2model", Q(text), Q(cleaned), tree, canonErrs(errs)), out, map[string]any{"dsl": text})
 	grammarConform(c, stream, text, tree, len(errs))
+	frontCorr(c, stream, text, cleaned, r)
+	fullCorr(c, stream, text, out, len(errs))
 	return out
 }
 
@@ -105,15 +108,34 @@ func grammarConform(c *Ctx, stream, text, tree string, nErrs int) {
 	})
 }
 
+// fullCorr: the whole DSL -> model pipeline inside the Lean model (comment pre-pass, lexer automaton
+// interpreter, grammar interpreter, listener walk) against the real TransformModularDSLToProto: the same
+// model, or the same listener errors; a text ANTLR reports a syntax error for must be rejected by the model
+// pipeline too (class only: ANTLR's messages and recovered trees are not modelled).
+func fullCorr(c *Ctx, stream, text, realOut string, nAntlrErrs int) {
+	if len(text) > 20000 {
+		return
+	}
+	want := realOut
+	if nAntlrErrs > 0 {
+		want = "(syntax-errors)"
+	}
+	c.D.Add("corr:pipeline/"+stream, L("dsl2model-full", Q(text)), want, map[string]any{"dsl": text})
+	c.Dist("whole_pipeline_texts_compared")
+}
+
 // dslCorrScoped: as dslCorr, and asks the Lean driver whether the real parse tree meets the hypothesis
 // (`wellScoped`) of the no-panic theorem of Props/C08.lean. A tree outside it is not a disagreement
 // (the differential check still covers it); it is counted, with a sample, in the evidence.
 func dslCorrScoped(c *Ctx, stream, text string) {
 	cleaned := harnessClean(text)
-	tree, _, errs := parseTree(cleaned)
+	r := parseFull(cleaned)
+	tree, errs := r.Tree, r.Errs
 	out, _, _ := realParse(text)
 	c.D.Add("corr:parser/"+stream, L("dsl2model", Q(text), Q(cleaned), tree, canonErrs(errs)), out, map[string]any{"dsl": text})
 	grammarConform(c, stream, text, tree, len(errs))
+	frontCorr(c, stream, text, cleaned, r)
+	fullCorr(c, stream, text, out, len(errs))
 	kind := "error_free_trees"
 	if len(errs) > 0 {
 		kind = "error_recovered_trees"
